@@ -19,10 +19,15 @@ type C15Params struct {
 	Limit int
 	// Tasks: one entry per microtask "<prio>-<variant>-<outcome>", prio in m,l,h; variant in run,start,signal; outcome in ok,err,panic
 	Tasks []string
+	// StopDuring: Shutdown is called while the microtasks are still being submitted / running (module stops must not be held up once they finished)
+	StopDuring bool
+	// Expiry: the low priority clearance queue holds one entry only and the first Limit medium tasks keep running until
+	// released, so that low priority tasks queue up, find the queue full and start when their maximum delay expires
+	Expiry bool
 }
 
 func (p C15Params) Name() string {
-	return fmt.Sprintf("c15/limit=%d/%s", p.Limit, strings.Join(p.Tasks, ","))
+	return fmt.Sprintf("c15/limit=%d/%s/stopduring=%v/expiry=%v", p.Limit, strings.Join(p.Tasks, ","), p.StopDuring, p.Expiry)
 }
 
 type c15state struct {
@@ -53,6 +58,10 @@ func VerifC15(p C15Params) *vsched.Scenario {
 		SetMaxConcurrentMicroTasks(p.Limit)
 		vsched.Quiesce()
 		wantErr := errors.New("microtask failed")
+		release := make(chan struct{})
+		if p.Expiry {
+			lowPriorityClearance = make(chan chan struct{}, 1)
+		}
 
 		body := func(k int, prio, outcome string) func(context.Context) error {
 			return func(context.Context) error {
@@ -70,6 +79,9 @@ func VerifC15(p C15Params) *vsched.Scenario {
 					}
 				}
 				vsched.Ev(fmt.Sprintf("begin:%d", k))
+				if p.Expiry && prio == "m" {
+					<-release // keeps its slot until the maximum delays of the waiting tasks have expired
+				}
 				vsched.Point("microtask-work")
 				vsched.Ev(fmt.Sprintf("end:%d", k))
 				if prio == "h" {
@@ -140,9 +152,9 @@ func VerifC15(p C15Params) *vsched.Scenario {
 					case "h":
 						done = m.SignalHighPriorityMicroTask()
 					case "m":
-						done = m.SignalMicroTask(0)
+						done = m.SignalMicroTask(defaultMediumPriorityMaxDelay) // the Signal variants apply no default for 0
 					case "l":
-						done = m.SignalLowPriorityMicroTask(0)
+						done = m.SignalLowPriorityMicroTask(defaultLowPriorityMaxDelay)
 					}
 					func() {
 						defer func() { _ = recover() }() // the caller of a signalled microtask runs the work itself
@@ -161,6 +173,28 @@ func VerifC15(p C15Params) *vsched.Scenario {
 				}
 				s.returned[k] = true
 			}()
+		}
+		if p.Expiry {
+			// let the maximum delays (1s medium, 3s low) of the waiting tasks expire, then free the slots
+			vsched.Advance(5 * time.Second)
+			close(release)
+		}
+		if p.StopDuring {
+			s.shutdown = true
+			before := vsched.Now()
+			_ = Shutdown()
+			vsched.Explore(false)
+			wg.Wait()
+			vsched.Quiesce()
+			if d := vsched.Now() - before; d >= time.Second {
+				verifFail("module-stop-not-held-up", "stop-waited-for-finished-microtasks", "Shutdown, called while microtasks were running, took %s (virtual) although every microtask finished at once", d)
+			}
+			for k := range p.Tasks {
+				if s.ran[k] > 1 {
+					verifFail("every-microtask-runs-exactly-once", "ran-2-times", "microtask %d (%s) ran %d times", k, p.Tasks[k], s.ran[k])
+				}
+			}
+			return
 		}
 		wg.Wait()
 		vsched.Quiesce()
